@@ -21,7 +21,7 @@ RULE = ('cases = (table, key, count field, conflicts arguments, presorted, buffe
         'that occurs once and a key that occurs more than once. Distinct = SHA-1 of the case.')
 ASSUMPTIONS = ['rectangular tables with hashable cells (property domain)', 'key equality is Python == on key tuples']
 REQUIRED = ['rows=0', 'rows=1', 'run>=3-at-start', 'run>=3-in-middle', 'run>=3-at-end', 'key-none', 'key-compound', 'key-index',
-            'count-column', 'conflict-group', 'agreeing-duplicate-group', 'none-key-duplicated', 'presorted', 'buffersize-chunked']
+            'count-column', 'conflict-group', 'agreeing-duplicate-group', 'none-key-duplicated', 'presorted', 'buffersize-chunked', 'later-pass-after-edit(cache=False)']
 CELLS = [None, 1, 1.0, True, 2, 'a', b'a', 'b', (1, 2), gen.D(2020, 1, 1), 0, '']
 
 
@@ -156,6 +156,27 @@ def judge(case, ctx):
     if dup is not None and uni is not None and not out:
         if strict_ms(dup[1:]) + strict_ms(uni[1:]) != strict_ms(rows):
             out.append({'kind': 'duplicates+unique!=table'})
+    # ---- a later pass with cache=False after the source gained a row: the partition holds for the current contents
+    if rows and key is not None and not case['presorted'] and (len(rows) + len(str(key))) % 3 == 0:
+        live = copy.deepcopy(table)
+        kw2 = dict(kw, cache=False)
+        vd = petl.duplicates(live, key, **kw2)
+        vu = petl.unique(live, key, **kw2)
+        util.attempt_rows(lambda: vd)
+        util.attempt_rows(lambda: vu)
+        live.append(list(rows[0]))                       # repeats an existing key
+        rows2 = rows + [tuple(rows[0])]
+        mult2 = Counter(keyof(r) for r in rows2)
+        d2, u2 = util.attempt_rows(lambda: vd), util.attempt_rows(lambda: vu)
+        ctx.seen('later-pass-after-edit(cache=False)')
+        if isinstance(d2, util.Raised) or isinstance(u2, util.Raised):
+            out.append({'kind': 'exception', 'fn': 'duplicates/unique second pass', 'detail': repr(d2 if isinstance(d2, util.Raised) else u2)})
+        else:
+            e_d = [r for r in rows2 if mult2[keyof(r)] > 1]
+            e_u = [r for r in rows2 if mult2[keyof(r)] == 1]
+            if strict_ms(d2[1:]) != strict_ms(e_d) or strict_ms(u2[1:]) != strict_ms(e_u):
+                out.append({'kind': 'later-pass-with-cache-off-does-not-partition-the-current-rows', 'expected-duplicates': e_d, 'observed-duplicates': d2[1:],
+                            'expected-unique': e_u, 'observed-unique': u2[1:]})
     # ---- distinct
     first = {}
     for r, k in zip(rows, keys):
